@@ -45,7 +45,7 @@ def match_close(s, i, open_='{', close='}'):
         i += 1
     raise ValueError('unbalanced')
 
-FWD = re.compile(r"for \$ty|for WithoutDealloc|for WithoutShrink|for &mut B|for &B|macro_rules! forward_methods|macro_rules! impl_allocator_via_allocator")
+FWD = re.compile(r"for \$ty|for WithoutDealloc|for WithoutShrink|for &mut B|for &B|Allocator for &mut A|Allocator for &A|macro_rules! forward_methods|macro_rules! impl_allocator_via_allocator")
 FN = re.compile(r"\bfn\s+([A-Za-z_][A-Za-z0-9_]*)")
 
 def functions(src):
@@ -162,7 +162,7 @@ def extract(repo):
         # parameters on) or with its tokens
         for (name, params, body, off) in fns:
             cont = container(off)
-            if not FWD.search(cont) or not (rel.startswith('src/traits/') or rel in ('src/without_dealloc.rs', 'src/features/allocator_util.rs')): continue
+            if not FWD.search(cont) or not (rel.startswith('src/traits/') or rel in ('src/without_dealloc.rs', 'src/features/allocator_util.rs', 'src/alloc.rs')): continue
             t = tokens(body)
             t2 = [x for x in t if x not in ('unsafe', '{', '}')]
             while t2 and t2[-1] == ';': t2.pop()
@@ -175,7 +175,7 @@ def extract(repo):
             s_ = ' '.join(t2)
             mm = re.match(r"^((?:[A-Za-z_][A-Za-z0-9_]* :: )+)([A-Za-z_][A-Za-z0-9_]*)(?: :: < [^()]* >)? \( (.*) \)$", s_)
             row = {'file': rel, 'container': cont, 'name': name, 'params': param_names(params)}
-            mc = re.match(r"^(self(?: \. 0)?) \. ([A-Za-z_][A-Za-z0-9_]*) \( (.*) \)$", s_)
+            mc = re.match(r"^(self(?: \. 0)?|\( \* \* self \)) \. ([A-Za-z_][A-Za-z0-9_]*) \( (.*) \)$", s_)
             if mc and '(' not in mc.group(3):
                 row.update({'kind': 'forward', 'path': 'method:', 'callee': mc.group(2),
                             'args': [mc.group(1)] + [a.strip() for a in mc.group(3).split(' , ') if a.strip()], 'wrapped': wrapped})
@@ -189,7 +189,7 @@ def extract(repo):
 
 
 # ---------------------------------------------------------------- the rules (mirrored in coq/TwinSpec.v)
-RECEIVERS = ['self', '$ access', '$ access_mut', '& self . 0', 'self . 0', '$ accessor']
+RECEIVERS = ['self', '$ access', '$ access_mut', '& self . 0', 'self . 0', '$ accessor', '( * * self )']
 # functions of forwarding containers that are not a plain forward, with the reason
 ALLOWED_OTHER = {
     ('typed_stats', 'self . any_stats ( )'): 'trait objects report type-erased statistics',
